@@ -419,3 +419,293 @@ pub fn inventory() -> Vec<String> {
     }
     hits
 }
+
+// ------------------------------------------------- cases in child processes
+//
+// Every simulated case runs in a child process that executes a deterministic
+// chunk of case indexes sequentially (each case on a fresh thread). A case's
+// outcome is therefore a pure function of (VERIF_SEED, property, batch, chunk
+// start, index) — also for code under test that keeps process-wide state — and
+// a violation can always be replayed exactly: alone in a fresh process if it
+// is self-contained, otherwise by re-running its chunk prefix.
+
+#[derive(Clone, Debug, Default)]
+pub struct CaseOut {
+    pub index: u64,
+    pub seed: u64,
+    pub evals: u64,
+    pub steps: u64,
+    pub log: u64,
+    pub distinct: Vec<u64>,
+    pub faults: BTreeMap<String, u64>,
+    pub probes: BTreeMap<String, u64>,
+    pub sample: Option<Value>,
+    /// (oracle key, detail, self-contained replay object of the unminimised case)
+    pub violation: Option<(String, String, Value)>,
+    pub extra: Value,
+}
+
+impl CaseOut {
+    pub fn to_json(&self) -> Value {
+        json!({
+            "i": self.index, "seed": self.seed.to_string(), "evals": self.evals, "steps": self.steps,
+            "log": self.log.to_string(), "distinct": self.distinct.iter().map(|d| d.to_string()).collect::<Vec<_>>(),
+            "faults": self.faults, "probes": self.probes, "sample": self.sample,
+            "violation": self.violation.as_ref().map(|(k, d, r)| json!({"okey": k, "detail": d, "replay": r})),
+            "extra": self.extra,
+        })
+    }
+    pub fn from_json(v: &Value) -> CaseOut {
+        let m = |x: &Value| -> BTreeMap<String, u64> {
+            x.as_object()
+                .map(|o| o.iter().map(|(k, v)| (k.clone(), v.as_u64().unwrap_or(0))).collect())
+                .unwrap_or_default()
+        };
+        CaseOut {
+            index: v["i"].as_u64().unwrap_or(0),
+            seed: v["seed"].as_str().and_then(|s| s.parse().ok()).unwrap_or(0),
+            evals: v["evals"].as_u64().unwrap_or(0),
+            steps: v["steps"].as_u64().unwrap_or(0),
+            log: v["log"].as_str().and_then(|s| s.parse().ok()).unwrap_or(0),
+            distinct: v["distinct"].as_array().map(|a| a.iter().filter_map(|d| d.as_str().and_then(|s| s.parse().ok())).collect()).unwrap_or_default(),
+            faults: m(&v["faults"]),
+            probes: m(&v["probes"]),
+            sample: if v["sample"].is_null() { None } else { Some(v["sample"].clone()) },
+            violation: if v["violation"].is_null() {
+                None
+            } else {
+                Some((
+                    v["violation"]["okey"].as_str().unwrap_or("").to_string(),
+                    v["violation"]["detail"].as_str().unwrap_or("").to_string(),
+                    v["violation"]["replay"].clone(),
+                ))
+            },
+            extra: v["extra"].clone(),
+        }
+    }
+}
+
+fn self_exe(profile_dev: bool) -> String {
+    if profile_dev {
+        if let Ok(p) = std::env::var("SIM_DEV") {
+            return p;
+        }
+    }
+    if !cfg!(debug_assertions) || profile_dev {
+        // same binary as the one running
+    }
+    std::env::current_exe().expect("current_exe").display().to_string()
+}
+
+/// Child side: `espada-sim cases <prop> <batch> <first> <count> <tier>`.
+pub fn cases_child_main(args: &[String], f: &(dyn Fn(&str, &str, &str, u64) -> CaseOut + Sync)) -> i32 {
+    if args.len() < 7 {
+        eprintln!("usage: cases <prop> <batch> <first> <count> <tier>");
+        return 2;
+    }
+    let (prop, batch, tier) = (args[2].as_str(), args[3].as_str(), args[6].as_str());
+    let first: u64 = args[4].parse().unwrap_or(0);
+    let count: u64 = args[5].parse().unwrap_or(0);
+    use std::io::Write;
+    let out = std::io::stdout();
+    for i in first..first + count {
+        let r = fresh_thread(|| f(prop, batch, tier, i));
+        let mut o = out.lock();
+        let _ = writeln!(o, "CASE {}", r.to_json());
+        let _ = o.flush();
+    }
+    0
+}
+
+pub struct ChunkResult {
+    pub cases: Vec<CaseOut>,
+    /// the child ended without reporting every case: (index of the case in flight, how it ended)
+    pub died: Option<(u64, String)>,
+}
+
+pub fn run_chunk(prop: &str, batch: &str, first: u64, count: u64, tier: &str, dev: bool) -> ChunkResult {
+    let bin = self_exe(dev);
+    let out = std::process::Command::new(&bin)
+        .args(["cases", prop, batch, &first.to_string(), &count.to_string(), tier])
+        .stdin(std::process::Stdio::null())
+        .stderr(std::process::Stdio::inherit())
+        .output();
+    let out = match out {
+        Ok(o) => o,
+        Err(e) => {
+            eprintln!("HARNESS ERROR: cannot start {bin}: {e}");
+            std::process::exit(2);
+        }
+    };
+    let text = String::from_utf8_lossy(&out.stdout);
+    let mut cases = vec![];
+    for l in text.lines() {
+        if let Some(j) = l.strip_prefix("CASE ") {
+            if let Ok(v) = serde_json::from_str::<Value>(j) {
+                cases.push(CaseOut::from_json(&v));
+            }
+        }
+    }
+    let died = if (cases.len() as u64) < count {
+        Some((first + cases.len() as u64, format!("{}", out.status)))
+    } else {
+        None
+    };
+    if died.is_some() && out.status.code() == Some(2) {
+        eprintln!("HARNESS ERROR: case child reported a harness error ({prop} {batch} {first}+{count})");
+        std::process::exit(2);
+    }
+    ChunkResult { cases, died }
+}
+
+/// Run cases 0..n of a batch in chunked children, in parallel; results in index order.
+pub fn run_batch(prop: &str, batch: &str, n: u64, chunk: u64, tier: &str, dev: bool) -> Vec<ChunkResult> {
+    let nchunks = ((n + chunk - 1) / chunk) as usize;
+    let (prop, batch, tier) = (prop.to_string(), batch.to_string(), tier.to_string());
+    par_map(nchunks, workers(), move |ci| {
+        let first = ci as u64 * chunk;
+        let count = chunk.min(n - first);
+        run_chunk(&prop, &batch, first, count, &tier, dev)
+    })
+}
+
+/// Evaluate one self-contained replay object in a fresh process:
+/// `espada-sim eval <prop>` with the object on stdin → Some((key, detail)) if it violates.
+pub fn eval_in_child(prop: &str, replay: &Value, dev: bool) -> Option<(String, String)> {
+    use std::io::Write;
+    let bin = self_exe(dev);
+    let mut child = std::process::Command::new(&bin)
+        .args(["eval", prop])
+        .stdin(std::process::Stdio::piped())
+        .stdout(std::process::Stdio::piped())
+        .stderr(std::process::Stdio::null())
+        .spawn()
+        .ok()?;
+    {
+        let mut sin = child.stdin.take()?;
+        let _ = writeln!(sin, "{}", replay);
+    }
+    let out = child.wait_with_output().ok()?;
+    let text = String::from_utf8_lossy(&out.stdout);
+    for l in text.lines() {
+        if let Some(j) = l.strip_prefix("EVAL ") {
+            let v: Value = serde_json::from_str(j).ok()?;
+            if v["key"].is_null() {
+                return None;
+            }
+            return Some((v["key"].as_str()?.to_string(), v["detail"].as_str().unwrap_or("").to_string()));
+        }
+    }
+    // the evaluating process died: that is a reproducible outcome of this input
+    Some(("process_died".to_string(), format!("evaluating process ended with {}", out.status)))
+}
+
+/// Child side of `eval`: `check` maps a replay object to an oracle key.
+pub fn eval_child_main(check: &(dyn Fn(&Value) -> Option<(String, String)> + Sync)) -> i32 {
+    let mut line = String::new();
+    if std::io::stdin().read_line(&mut line).is_err() {
+        return 2;
+    }
+    let v: Value = match serde_json::from_str(&line) {
+        Ok(v) => v,
+        Err(_) => return 2,
+    };
+    let r = fresh_thread(|| check(&v));
+    match r {
+        Some((k, d)) => println!("EVAL {}", json!({"key": k, "detail": d})),
+        None => println!("EVAL {}", json!({"key": null})),
+    }
+    0
+}
+
+impl Evidence {
+    pub fn merge_case(&mut self, c: &CaseOut) {
+        self.evaluations += c.evals;
+        self.steps += c.steps;
+        for d in &c.distinct {
+            self.distinct.insert(*d);
+        }
+        self.merge_counts(&c.faults, &c.probes);
+    }
+}
+
+/// Turn a violating case into a replayable Violation:
+/// 1. if the case reproduces alone in a fresh process, minimise it there
+///    (`minimise` gets a predicate that evaluates candidates in fresh processes);
+/// 2. otherwise the replay is the chunk prefix that led to it (shortest suffix
+///    of the prefix that still reproduces).
+#[allow(clippy::too_many_arguments)]
+pub fn settle_violation(
+    prop: &str,
+    batch: &str,
+    tier: &str,
+    dev: bool,
+    chunk_first: u64,
+    case: &CaseOut,
+    minimise: &dyn Fn(&Value, &str, &dyn Fn(&Value) -> bool) -> (Value, usize),
+    key_of: &dyn Fn(&str, &Value) -> String,
+) -> Violation {
+    let (okey, detail, replay) = case.violation.clone().unwrap();
+    let alone = eval_in_child(prop, &replay, dev);
+    if alone.as_ref().map(|(k, _)| *k == okey).unwrap_or(false) {
+        let ok2 = okey.clone();
+        let p = prop.to_string();
+        let fails = move |cand: &Value| -> bool { eval_in_child(&p, cand, dev).map(|(k, _)| k == ok2).unwrap_or(false) };
+        let (mut min, tried) = minimise(&replay, &okey, &fails);
+        let fin = eval_in_child(prop, &min, dev);
+        let detail = fin.map(|x| x.1).unwrap_or(detail);
+        min["shrink_candidates"] = json!(tried);
+        min["found_in"] = json!(format!("{batch} case {}", case.index));
+        if dev {
+            min["profile"] = json!("dev");
+        }
+        return Violation {
+            property: prop.to_string(),
+            oracle: okey.clone(),
+            key: key_of(&okey, &min),
+            detail,
+            seed: case.seed,
+            replay: min,
+        };
+    }
+    // depends on what the process did before: replay the chunk prefix
+    let j = case.index;
+    let mut start = chunk_first;
+    let mut len = 2u64;
+    while j + 1 >= chunk_first + len && len <= 64 {
+        let s = j + 1 - len;
+        let r = run_chunk(prop, batch, s, len, tier, dev);
+        if r.cases.last().and_then(|c| c.violation.as_ref()).map(|v| v.0 == okey).unwrap_or(false) {
+            start = s;
+            break;
+        }
+        len *= 2;
+    }
+    let mut rj = json!({"kind": "chunk", "batch": batch, "first": start, "upto": j, "tier": tier, "expected_oracle": okey});
+    if dev {
+        rj["profile"] = json!("dev");
+    }
+    Violation {
+        property: prop.to_string(),
+        oracle: okey.clone(),
+        key: format!("{okey}:history:{batch}:{start}..={j}"),
+        detail: format!("{detail} — not reproducible from this case alone in a fresh process: it depends on what the process executed before (cases {start}..={j} of batch '{batch}' replay it)"),
+        seed: case.seed,
+        replay: rj,
+    }
+}
+
+/// Replay of a `chunk` replay object: re-run the prefix in a fresh child.
+pub fn replay_chunk(prop: &str, r: &Value) -> Option<(String, String)> {
+    let batch = r["batch"].as_str()?;
+    let first = r["first"].as_u64()?;
+    let upto = r["upto"].as_u64()?;
+    let tier = r["tier"].as_str().unwrap_or("quick");
+    let dev = r["profile"].as_str() == Some("dev");
+    let res = run_chunk(prop, batch, first, upto - first + 1, tier, dev);
+    if let Some((i, how)) = res.died {
+        return Some((format!("process_died:history:{batch}:{first}..={upto}"), format!("case {i}: child {how}")));
+    }
+    let last = res.cases.last()?;
+    last.violation.as_ref().map(|(k, d, _)| (format!("{k}:history:{batch}:{first}..={upto}"), d.clone()))
+}
